@@ -322,7 +322,61 @@ func (w *Worker) call(c *wcmd) (*wreply, error) {
 }
 
 // HTTP sends one request through the server's full mux.
+// request families: which endpoints this run actually drove (method, level, instance name, endpoint keyword); written
+// into the evidence as coverage.request_families
+var (
+	famMu sync.Mutex
+	fams  = map[string]int{}
+)
+
+func noteRequest(method, url string) {
+	if i := strings.IndexByte(url, '?'); i >= 0 {
+		url = url[:i]
+	}
+	parts := strings.Split(strings.Trim(url, "/"), "/")
+	fam := ""
+	switch {
+	case len(parts) >= 4 && parts[0] == "api" && parts[1] == "node":
+		kw := ""
+		if len(parts) >= 5 {
+			kw = parts[4]
+		}
+		switch parts[3] {
+		case "commit", "newversion", "branch", "tag", "note", "log", "status", "lock":
+			fam = "node/" + parts[3]
+		default:
+			fam = "node/<" + parts[3] + ">/" + kw
+		}
+	case len(parts) >= 4 && parts[0] == "api" && parts[1] == "repo":
+		fam = "repo/" + parts[3]
+	case len(parts) >= 2 && parts[0] == "api":
+		fam = strings.Join(parts[1:min(len(parts), 3)], "/")
+	default:
+		fam = "other"
+	}
+	if len(fam) > 60 {
+		fam = fam[:60]
+	}
+	famMu.Lock()
+	if len(fams) < 600 || fams[strings.ToUpper(method)+" "+fam] > 0 {
+		fams[strings.ToUpper(method)+" "+fam]++
+	}
+	famMu.Unlock()
+}
+
+// RequestFamilies returns a copy of the per-family request counts of this process.
+func RequestFamilies() map[string]int {
+	famMu.Lock()
+	defer famMu.Unlock()
+	out := make(map[string]int, len(fams))
+	for k, v := range fams {
+		out[k] = v
+	}
+	return out
+}
+
 func (w *Worker) HTTP(method, url string, body []byte) (Resp, error) {
+	noteRequest(method, url)
 	rep, err := w.call(&wcmd{Cmd: "http", Req: Req{Method: method, URL: url, Body: body}, Label: method + " " + url})
 	if err != nil {
 		return Resp{}, err
@@ -340,6 +394,9 @@ func (w *Worker) Delete(url string) (Resp, error)            { return w.HTTP("DE
 
 // Par runs the requests concurrently (one goroutine each, released by one barrier).
 func (w *Worker) Par(reqs []Req) ([]Resp, error) {
+	for _, q := range reqs {
+		noteRequest(q.Method, q.URL)
+	}
 	rep, err := w.call(&wcmd{Cmd: "par", Reqs: reqs, Label: "par"})
 	if err != nil {
 		return nil, err
